@@ -52,7 +52,9 @@ CHECKS = {
               "value / invalid or non-canonical encoding / sign flip, truncation at and inside every element, "
               "appended bytes, all public-input edits, committed instances, wrong key / k / hash, thorough: every "
               "single-bit flip) is run against the real verifier; the trace spec demands the model's verdict for "
-              "each and the completeness of the plan."),
+              "each and the completeness of the plan. The standard library's own entry points (verify, batch_verify on batches "
+              "of one and two, at each position) get a byte-level plan (appended bytes, truncations, bit flips spread over the "
+              "proof, a changed public input) with the same rule."),
         design_ref="DESIGN.md 4/C03",
         note=("Single edits only (the property's quantifier); soundness up to negligible probability; "
               "proof_same/stmt_same/key_same facts are harness byte comparisons; panics count as violations."),
@@ -159,9 +161,13 @@ CHECKS = {
               "with the encoder's vector and with every sampled single-position edit {+1, -1, 0/1, +2^64}, and for a subset "
               "the public-input count stored by setup_vk and the verdicts of the real prove/verify on right, shorter, "
               "longer and edited vectors. PubIn_Trace requires encoder = Encode(value), exposure = encoder's vector, every "
-              "edit rejected, stored count = total length, verify accepts exactly the right vector."),
+              "edit rejected, stored count = total length, verify accepts exactly the right vector. Accumulators of the verifier gadget: "
+              "AccEncode / MsmEncode (bases as foreign points, scalars, then the scalars of the NAMED fixed bases in byte-wise "
+              "lexicographic order of the names); accumulators are witnessed from name lists in canonical (index), reversed and "
+              "shuffled order with 3..25 fixed and permutation commitments, exposed by VerifierGadget::constrain_as_public_input "
+              "and compared with AssignedAccumulator::as_public_input and the specification."),
         design_ref="DESIGN.md 4/C08",
-        note=("Not covered: verifying-key identities and accumulators of the verifier gadget, IR value types (zkir publish), "
+        note=("Not covered: verifying-key identities of the verifier gadget, the committed-scalar accumulator path, IR value types (zkir publish), "
               "committed instance column. Edits are sampled positions on long vectors; satisfiability judged by MockProver."),
         technique="TLA+/TLC: PublicInputs Encode/Decode model checked for round trip and injectivity; recorded exposures and edit verdicts validated as traces",
     ),
@@ -187,7 +193,10 @@ CHECKS = {
     "C10": dict(
         category="exploration",
         text=("The driver calls the field types of midnight-curves - BLS12-381 Fq and Fp, Jubjub Fr, secp256k1 Fp and Fq, "
-              "Curve25519 Fp and Scalar, BN254 Fq and Fr, and the quadratic extensions BLS12-381 Fp2 and BN254 Fq2 - on "
+              "Curve25519 Fp and Scalar, BN254 Fq and Fr, the quadratic extensions BLS12-381 Fp2 and BN254 Fq2, and Fp6 / Fp12 of both "
+              "pairing curves (Tower.tla: schoolbook arithmetic from v^3 = xi, w^2 = v; structural Frobenius maps checked in-model against "
+              "x^p; add, sub, mul, square, invert, Frobenius powers 0..13, conjugation, multiplication by the non-residue, the sparse "
+              "products mul_by_1/01/014/034 and cyclotomic squaring; Fq2 byte encodings, ordering, norm, 96-byte uniform reduction) - on "
               "boundary operand classes {0, 1, 2, 3, 5, p-1, p-2, 2^64+-1, 2^128-1, 2^192-1, (p+-1)/2, Montgomery R, R^2, "
               "2^384 mod p, random}: add, sub, mul (by value and assigning), neg, square, cube, double, invert, batched "
               "inversion, pow (constant-time and vartime, one- and two-limb exponents), sqrt (incl. embedded base-field "
@@ -199,14 +208,14 @@ CHECKS = {
               "BigNat_SelfTest with and without it on every run."),
         design_ref="DESIGN.md 4/C10",
         note=("The specification is stateless here: TLC is the evaluator of the mathematical definition (DESIGN.md 1.2(D)). Not "
-              "covered: Fp6/Fp12 and the BN254 higher towers, Montgomery internals, from_uniform_bytes of the types that do not "
+              "covered: Montgomery internals, sqrt in Fp6/Fp12 (unimplemented in the code), from_uniform_bytes of the types that do not "
               "implement FromUniformBytes<64>, operands beyond the fixed menus."),
-        technique="TLA+/TLC: PrimeField / quadratic-extension definitions over BigNat re-evaluate every recorded library call (trace validation)",
+        technique="TLA+/TLC: PrimeField and extension-tower definitions over BigNat re-evaluate every recorded library call (trace validation)",
     ),
     "C11": dict(
         category="exploration",
         text=("The driver calls midnight-curves on BLS12-381 G1, secp256k1, Jubjub (extended, affine and prime-subgroup "
-              "types), Curve25519 and BN254 G1: addition and subtraction in every mix of representations and operator forms "
+              "types), Curve25519, BN254 G1 and the G2 groups of both pairing curves (group law over Fp2, Tower.tla): addition and subtraction in every mix of representations and operator forms "
               "(by value, by reference, assigning), doubling, negation, equality, summation, scalar multiplication over the "
               "scalar classes {0, 1, 2, r-1, r-2, 2^128-1, 2^128, random}, batch normalisation with and without the identity, "
               "conversions, Jacobian accessors and constructors, and the encodings (round trip, affine = projective bytes, "
@@ -217,7 +226,7 @@ CHECKS = {
               "and checks the encoding laws (decode(encode P) = P; whatever a checked decoder accepts re-encodes to the same "
               "bytes, is on the curve and in the subgroup where promised, and is accepted by the unchecked decoder)."),
         design_ref="DESIGN.md 4/C11",
-        note=("Not covered: G2 types (the curve model is over prime fields), points outside the subgroup built with unchecked "
+        note=("Not covered: points outside the subgroup built with unchecked "
               "constructors, the byte formats themselves (judged by laws), random operands beyond the fixed menus."),
         technique="TLA+/TLC: executable Curve model over BigNat re-evaluates every recorded library call (trace validation)",
     ),
@@ -290,8 +299,9 @@ CHECKS = {
               "squeezed after the summary of every member, and accumulator checks equal to the conjunction of the "
               "individual verdicts observed in the same run."),
         design_ref="DESIGN.md 4/C15",
-        note=("Invalid members are independent in reality (no colluding proofs can be built), so the binding of r to "
-              "every member is checked on the recorded batching transcript rather than by an attack; in-circuit "
+        note=("The colluding pair is real: one valid proof with its final opening witness shifted by +D and by -D (opposite "
+              "errors), placed at every pair of positions; the pool members are judged against their construction by the "
+              "trace spec; the binding of r to every member is also checked on the recorded batching transcript; in-circuit "
               "accumulator is covered under C20."),
         technique="TLA+/TLC model checking of Batch + replay of enumerated batches into the real batch verifier/accumulator validated by a trace spec",
     ),
